@@ -202,10 +202,10 @@ func matchingOpen(s string, cl int) int {
 const gotypeBudget = 120000
 
 func c09(c *wk.Ctx) {
-	c.Note("rule", "streams: grammar = signatures printed by the reference generator (all scalar kinds, m o X v, lists, maps, tuples, structs incl. template-style names; depth <= 6/8, width <= 6/10; one case in 32 is wide: 20-300 composite members side by side; one in 32 deep: 10-120 levels): Parse must succeed, Signature() must equal the input, SignatureIDL() the reference IDL name, a second Parse of the same string after the first result was registered into a type set prints the same, Type() the structure (first 120k cases; maps with non-comparable Go keys excluded from Type() only); mutant = one or two character edits of a valid signature, or (a quarter) a struct definition whose member names and member types disagree in number; random = random strings over the signature alphabet, raw bytes and deep nestings (<= 64 KiB): error, or an accepted input whose print re-parses and prints the same. Distinct non-trivial = distinct signatures (grammar) / distinct inputs that are accepted or are single-edit neighbours of a valid one.")
+	c.Note("rule", "streams: grammar = signatures printed by the reference generator (all scalar kinds, m o X v, lists, maps, tuples, structs incl. template-style names and structs without members; depth <= 6/8, width <= 6/10; one case in 32 is wide: 20-300 composite members side by side; one in 32 deep: 10-120 levels): Parse must succeed, Signature() must equal the input, SignatureIDL() the reference IDL name, a second Parse of the same string after the first result was registered into a type set prints the same, Type() the structure (first 120k cases; maps with non-comparable Go keys excluded from Type() only); mutant = one or two character edits of a valid signature, or (a quarter) a struct definition whose member names and member types disagree in number; random = random strings over the signature alphabet, raw bytes and deep nestings (<= 64 KiB): error, or an accepted input whose print re-parses and prints the same. Distinct non-trivial = distinct signatures (grammar) / distinct inputs that are accepted or are single-edit neighbours of a valid one.")
 	depth, width := c.Pick(6, 8), c.Pick(6, 10)
 	c.Cases("grammar", c.Pick(40000, 400000), func(i int, rng *rand.Rand) {
-		t := rc.GenType(rng, rc.GenOpts{Depth: 2 + rng.Intn(depth-1), Width: 1 + rng.Intn(width), Scalars: c09Scalars, TemplateNames: true, ComparableKeys: i%2 == 0})
+		t := rc.GenType(rng, rc.GenOpts{Depth: 2 + rng.Intn(depth-1), Width: 1 + rng.Intn(width), Scalars: c09Scalars, TemplateNames: true, ComparableKeys: i%2 == 0, EmptyStructs: true})
 		switch i % 32 {
 		case 5:
 			// WIDE: 20-300 small composite types side by side in one tuple / structure
